@@ -434,4 +434,82 @@ theorem polyLoop_total (sqrt : α → α) (eps x y : α) (l : List (α × α))
           subst h1
           simp [better] at hb
 
+/-! ### the lines after the loop (since the `fix:` commit 563eeba): the first vertex when nothing was kept -/
+
+/-- when the loop ends without a current minimum, every segment was skipped -/
+theorem polyLoop_none (sqrt : α → α) (eps x y : α) (l : List (α × α)) (i0 : Nat) (cur : Option (α × α × α × Nat))
+    (h : polyLoop sqrt eps x y l i0 cur = .ok none) :
+    ∀ k p1 p2, SegAt l k p1 p2 → skipped eps p1.1 p1.2 p2.1 p2.2 = true := by
+  intro k p1 p2 hs
+  cases hsk : skipped eps p1.1 p1.2 p2.1 p2.2 with
+  | true => rfl
+  | false =>
+    obtain ⟨r, rk, e, _⟩ := (polyLoop_spec sqrt eps x y l i0 cur none h).2.2 k p1 p2 hs hsk
+    cases e
+
+/-- when every segment is skipped the loop leaves the current minimum as it is -/
+theorem polyLoop_all_skipped (sqrt : α → α) (eps x y : α) (l : List (α × α))
+    (hall : ∀ k p1 p2, SegAt l k p1 p2 → skipped eps p1.1 p1.2 p2.1 p2.2 = true) :
+    ∀ (i0 : Nat) (cur : Option (α × α × α × Nat)), polyLoop sqrt eps x y l i0 cur = .ok cur := by
+  induction l with
+  | nil => intro i0 cur; simp only [polyLoop]
+  | cons a tl ih =>
+    cases tl with
+    | nil => intro i0 cur; simp only [polyLoop]
+    | cons b rest =>
+      intro i0 cur
+      have h0 : skipped eps a.1 a.2 b.1 b.2 = true := hall 0 a b ((SegAt_zero a b rest a b).mpr ⟨rfl, rfl⟩)
+      rw [polyLoop, h0]
+      simp only [↓reduceIte]
+      exact ih (fun k p1 p2 hs => hall (k + 1) p1 p2 ((SegAt_succ a _ k p1 p2).mpr hs)) (i0 + 1) cur
+
+/-- `proj_polyligne` on a polyline with a kept segment: what it returns is what the loop kept -/
+theorem projPolyligne_kept (sqrt : α → α) (eps : α) (pts : List (α × α)) (x y : α) (r : α × α × α × Nat)
+    (hex : ∃ j p1 p2, pts[j]? = some p1 ∧ pts[j + 1]? = some p2 ∧ skipped eps p1.1 p1.2 p2.1 p2.2 = false)
+    (h : projPolyligne sqrt eps pts x y = .ok r) : polyLoop sqrt eps x y pts 0 none = .ok (some r) := by
+  unfold projPolyligne at h
+  match pts, h with
+  | [], h => cases h
+  | p0 :: rest, h =>
+    simp only at h
+    cases hl : polyLoop sqrt eps x y (p0 :: rest) 0 none with
+    | error e => rw [hl] at h; cases h
+    | ok res =>
+      rw [hl] at h
+      cases res with
+      | some r' => simp only at h; injection h with h; rw [h]
+      | none =>
+        obtain ⟨j, p1, p2, s1, s2, hk⟩ := hex
+        have := polyLoop_none sqrt eps x y _ 0 none hl j p1 p2 ⟨s1, s2⟩
+        rw [hk] at this; cases this
+
+/-- `proj_polyligne` on a polyline all of whose segments are skipped (all the vertices coincide up to `eps` per segment; a
+single vertex): the first vertex, the distance to it, index 0 -/
+theorem projPolyligne_all_skipped (sqrt : α → α) (eps : α) (p0 : α × α) (rest : List (α × α)) (x y : α)
+    (hall : ∀ k p1 p2, SegAt (p0 :: rest) k p1 p2 → skipped eps p1.1 p1.2 p2.1 p2.2 = true) :
+    projPolyligne sqrt eps (p0 :: rest) x y = .ok (firstVertex sqrt x y p0.1 p0.2) := by
+  unfold projPolyligne
+  simp only [polyLoop_all_skipped sqrt eps x y _ hall 0 none]
+
+/-- the converse: with no kept segment the answer is the first vertex, whatever `proj_polyligne` returns -/
+theorem projPolyligne_ok_cases (sqrt : α → α) (eps : α) (pts : List (α × α)) (x y : α) (r : α × α × α × Nat)
+    (h : projPolyligne sqrt eps pts x y = .ok r) :
+    polyLoop sqrt eps x y pts 0 none = .ok (some r) ∨
+      (∃ p0 rest, pts = p0 :: rest ∧ r = firstVertex sqrt x y p0.1 p0.2 ∧
+        ∀ k p1 p2, SegAt pts k p1 p2 → skipped eps p1.1 p1.2 p2.1 p2.2 = true) := by
+  unfold projPolyligne at h
+  match pts, h with
+  | [], h => cases h
+  | p0 :: rest, h =>
+    simp only at h
+    cases hl : polyLoop sqrt eps x y (p0 :: rest) 0 none with
+    | error e => rw [hl] at h; cases h
+    | ok res =>
+      rw [hl] at h
+      cases res with
+      | some r' => simp only at h; injection h with h; left; rw [h]
+      | none =>
+        simp only at h; injection h with h
+        exact Or.inr ⟨p0, rest, rfl, h.symm, polyLoop_none sqrt eps x y _ 0 none hl⟩
+
 end TV.Proj
